@@ -149,6 +149,22 @@ pub broadcast axiom fn ad_consts()
 """
 
 
+def more_preludes():
+    """the congruence / M-PRIME toolkit (proved lemmas over the axioms m_prime_*_) and the uniqueness of the inverse square root"""
+    from . import arksqrt as _ak
+    _P = dict(field_params("fq"))["P"]
+    _sk = dict(G=pow(_ak.ZETA, (_P - 1) >> 47, _P), M=(_P - 1) >> 47, ZZ=_ak._zz_from_source())
+    return [("ladder_lemmas.rs", None), ("pow_lemmas.rs", None), ("sarkar_lemmas.rs", _sk), ("ts_lemmas.rs", None), ("isqrt_unique.rs", None)]
+
+
+def r9_rules():
+    """R9: the hint closures `|| Ok(local)` of new_witness calls carry their (trivial) specification explicitly"""
+    return [("R9", r'Boolean::new_witness\(([^,]+),\s*\|\|\s*Ok\((\w+)\)\)',
+             r'Boolean::new_witness(\1, || -> (r_: Result<bool, SynthesisError>) ensures r_ == Ok::<bool, SynthesisError>(\2) { Ok(\2) })'),
+            ("R9", r'FqVar::new_witness\(([^,]+),\s*\|\|\s*Ok\((\w+)\)\)',
+             r'FqVar::new_witness(\1, || -> (r_: Result<Fq, SynthesisError>) ensures r_ == Ok::<Fq, SynthesisError>(\2) { Ok(\2) })')]
+
+
 def unit(mode):
     sound = mode == "sound"
     fq = dict(field_params("fq"))
@@ -162,10 +178,7 @@ def unit(mode):
     hdr = "impl FqVarExtension for FqVar"
     common_subst = [("R3", r'\bBoolean::TRUE\b', 'Boolean::TRUE_()'), ("R3", r'\bBoolean::FALSE\b', 'Boolean::FALSE_()'),
                     ("R3", r'\bBoolean::<Fq>::TRUE\b', 'Boolean::<Fq>::TRUE_()'), ("R3", r'\bBoolean::<Fq>::FALSE\b', 'Boolean::<Fq>::FALSE_()')]
-    r9 = [("R9", r'Boolean::new_witness\(([^,]+),\s*\|\|\s*Ok\((\w+)\)\)',
-           r'Boolean::new_witness(\1, || -> (r_: Result<bool, SynthesisError>) ensures r_ == Ok::<bool, SynthesisError>(\2) { Ok(\2) })'),
-          ("R9", r'FqVar::new_witness\(([^,]+),\s*\|\|\s*Ok\((\w+)\)\)',
-           r'FqVar::new_witness(\1, || -> (r_: Result<Fq, SynthesisError>) ensures r_ == Ok::<Fq, SynthesisError>(\2) { Ok(\2) })')]
+    r9 = r9_rules()
 
     def ext(fn):
         items.append(Item(EXT, hdr, [fn], header_out="impl FqVar"))
@@ -263,10 +276,7 @@ def unit(mode):
     inn(Fn("conditionally_select", props=(tag,), preamble=bui,
            ensures=f"match r {{ Ok(x) => pv(x) == (if cond.bval() {{ pv(*true_value) }} else {{ pv(*false_value) }}), {E_} }}"),
         hdr="impl CondSelectGadget<Fq> for ElementVar", header_out="impl ElementVar")
-    from . import arksqrt as _ak
-    _P = fq["P"]
-    _sk = dict(G=pow(_ak.ZETA, (_P - 1) >> 47, _P), M=(_P - 1) >> 47, ZZ=_ak._zz_from_source())
-    more = [("ladder_lemmas.rs", None), ("pow_lemmas.rs", None), ("sarkar_lemmas.rs", _sk), ("ts_lemmas.rs", None), ("isqrt_unique.rs", None)]
+    more = more_preludes()
     u = Unit(name=f"r1cs_{mode}", preludes=base_preludes() + [("curve_spec.rs", None), ("r1cs.rs", None)] + more,
              items=items, lemmas=lem + R1CS_LEMMAS + (COMPL_LEMMAS if not sound else ""), params=fq, global_subst=common_subst)
     u.raw = [(INN, "struct", "ElementVar")]
